@@ -4,7 +4,7 @@ CONSTANTS
   Rounds = 1
   PerRound = 1
   NotifyMode = "token"
-  TempApps = {}
+  TempApps = {2, 3}
   ExitMode = "recheck"
 INVARIANTS FIFO DrainSound NoHang LockOK
 CHECK_DEADLOCK FALSE
